@@ -129,6 +129,25 @@ def run(ctx):
             if c[0] == "const" and c[1][0] == "bits" and T.is_const_int(on, 1):
                 bits |= c[1][1]
         status_arg = p.arg(wr[0][0], len(wr[0][1]["args"]) - 1)
+        # the status word may also be built as an expression (`if more { FLAG } else { empty() }`, `FLAG | ..`)
+        def ev(t, depth=0):
+            if depth > 10 or not isinstance(t, tuple):
+                return None
+            if t[0] == "const" and t[1][0] == "bits":
+                return t[1][1]
+            if T.is_call(t, r"StatusFlags>::empty$"):
+                return 0
+            if T.is_call(t, r"StatusFlags>::(bitor|union)$|BitOr>::bitor$") and len(t[2]) == 2:
+                a, b_ = ev(t[2][0], depth + 1), ev(t[2][1], depth + 1)
+                return None if a is None or b_ is None else a | b_
+            if T.is_call(t, r"StatusFlags>::from_bits_truncate$|StatusFlags>::from_bits_retain$") and T.const_int(t[2][0]) is not None:
+                return T.const_int(t[2][0])
+            return None
+        direct = ev(status_arg)
+        if direct is not None and not sets:
+            bits = direct
+        elif direct is not None:
+            bits |= direct
         ok = more is not None and ((bits & SPEC.MORE_RESULTS_EXISTS) != 0) == more and (bits & ~SPEC.MORE_RESULTS_EXISTS) == 0
         ctx.ob("C03.finalize-first", ok, "finalize(more_exists=%s) sends status bits %#06x (bit 0x0008 must be set exactly when more results follow)" % (more, bits),
                fn=fin.path, construct="status-bit", callee=cname(wr[0][1]["func"]), where=fin.where(p.blocks[-1]), key_extra={"more": more},
@@ -275,7 +294,7 @@ def run(ctx):
             n += 1
             col = wc.arg_origin(bb, 2)
             g = T.peel(col, extra_rx=r"Option::<T>::ok_or_else$")
-            ok = col[0] == "okpayload" and T.is_call(g, r"slice::<impl \[T\]>::get$") and T.is_field(T.peel(g[2][0]), "columns") and \
+            ok = col[0] in ("okpayload", "somepayload") and T.is_call(g, r"slice::<impl \[T\]>::get$") and T.is_field(T.peel(g[2][0]), "columns") and \
                 T.affine(g[2][1]) == Aff(0, {("path", "self", "col"): 1})
             ctx.ob("C03.shape-checks", ok, "binary cells are encoded against %s (need the successfully looked-up columns.get(col))" % term_str(col)[:100], fn=wc.path,
                    construct="bin-bound-check", where=wc.where(bb))
